@@ -44,6 +44,11 @@ def table(name):
         return T.TModel({k: base[k] for k in ["P", "e"]}, TREF, 1, 0)
     if name == "N":  # same schema, n_offsets differs
         return T.TModel(base, TREF, 1, 1)
+    if name == "A32":  # the schema of A stored in single precision (the values it really holds)
+        c = {k: (np.asarray(v, dtype=np.float32).astype(float), un) for k, (v, un) in base.items()}
+        m32 = T.TModel(c, TREF, 1, 0)
+        m32.dtype = "float32"
+        return m32
     if name == "Z":  # reference epoch exactly BMJD 0 (simulated data counting time from zero)
         return T.TModel(base, 0.0, 1, 0)
     if name == "S":  # s in m/s
@@ -53,8 +58,21 @@ def table(name):
     raise KeyError(name)
 
 
-TABLES = ["A", "B", "C", "D", "E", "F", "G", "H", "J", "N", "S", "Z"]
+TABLES = ["A", "B", "C", "D", "E", "F", "G", "H", "J", "N", "S", "Z", "A32"]
 MODES = ["plain", "overwrite", "append", "append_overwrite"]
+
+
+def _impl(m):
+    """JokerSamples of a table model, in the storage precision the model declares"""
+    s_ = T.to_impl(m)
+    if getattr(m, "dtype", "float64") == "float32":
+        import astropy.units as u
+
+        for k in list(m.cols):
+            col = s_[k]
+            unit = getattr(col, "unit", None)
+            s_[k] = u.Quantity(np.asarray(getattr(col, "value", col), dtype=np.float32), unit if unit is not None else u.one, dtype=np.float32)
+    return s_
 
 
 def _norm(m):
@@ -78,6 +96,8 @@ def append_verdict(cur, new):
         return "accept"
     if list(cur.cols) != list(new.cols):
         return "refuse"
+    if getattr(cur, "dtype", "float64") != getattr(new, "dtype", "float64"):
+        return "refuse"  # another storage precision is another table layout (nothing may be rounded silently)
     for k in cur.cols:
         if cur.cols[k][1] != new.cols[k][1]:
             return "refuse"
@@ -197,7 +217,7 @@ def _write_op(path, model, op):
     tname, mode = op[1], op[2]
     route = op[3] if len(op) > 3 else "name"
     new = _norm(table(tname))
-    s = T.to_impl(new)
+    s = _impl(new)
     kw = dict(overwrite=(mode in ("overwrite", "append_overwrite")), append=(mode in ("append", "append_overwrite")))
     if route == "h5file":
         # documented alternative: the output is an open h5py.File. Opening / closing a file may touch its bytes, so "unaltered"
@@ -515,6 +535,10 @@ def shard(cases):
 
 def build_batch_cases(quick):
     cases = []
+    # large files: strided ranges spanning more than 65536 rows (block-wise readers), strides that do not divide a power of two
+    NB = 140003
+    for sel in (["slice", 0, None, 3], ["slice", 5, 139999, 7], ["tuple", 1, NB, 10], ["slice", 70000, None, 1], ["slice", 0, None, 65537], ["tuple", 0, 131072, 5]):
+        cases.append(dict(kind="batch", N=NB, sel=sel, cols=["P", "s"], units={"P": "yr"}))
     allcols = ["P", "e", "omega", "M0", "s"]
     colsets = [list(p) for r in (1, 2, 3) for p in itertools.permutations(allcols, r)]
     unitsets = [None, {"P": "yr"}, {"s": "m / s"}, {"P": "h", "s": "m / s", "omega": "deg"}]
@@ -552,7 +576,7 @@ def build_batch_cases(quick):
 def main():
     chk = core.Check(
         PID, "model_checking",
-        "BFS over write/overwrite/append/read/batch-read histories (12 tables x 4 write modes {plain, overwrite, append, append+overwrite} + read + read_batch per state) on a real HDF5 "
+        "BFS over write/overwrite/append/read/batch-read histories (13 tables x 4 write modes {plain, overwrite, append, append+overwrite} + read + read_batch per state) on a real HDF5 "
         "file per state (applied at one re-used path per worker, so file-name-keyed state collides), "
         "deduplicated on the reference file model (asserted equal to the file content in every state); FITS write/overwrite/read "
         "histories of depth<=2; read_batch: every (start,stop,step) tuple and slice, every index array of length<=3 (repeats, any "
